@@ -15,6 +15,12 @@ and mapproxy/cache/file.py (FileCache.tile_location / level_location) -> coq/gen
   by location_funcs with self.cache_dir": no path construction of their own (statements before the return of tile_location may
   only bind new local names).
 
+* `FileCache.load_tile / load_tile_metadata / is_cached / remove_tile`: the only file name they hand to os / os.path / open /
+  ImageSource is `location = self.tile_location(tile, dimensions=dimensions)` (no second look-up at a derived name).
+
+* mapproxy/multiapp.py: `MultiMapProxy.handle` uses exactly `req.pop_path()` as instance name; `filename_from_app_name` is
+  `os.path.join(self.base_dir, app_name + self.suffix or '')`; app_available / app_conf only look at that file name.
+
 Fail closed: any other shape raises Unsupported (the check then reports a broken translator obligation).
 """
 import ast
@@ -147,6 +153,83 @@ def file_tile_location_pinned(fn):
                 raise Unsupported('FileCache.tile_location: parameter %s is rebound before the return' % n.id)
 
 
+LOCATION_ASSIGN = ("Call(func=Attribute(value=Name(id='self', ctx=Load()), attr='tile_location', ctx=Load()), args=[Name(id='tile', ctx=Load())], "
+                   "keywords=[keyword(arg='dimensions', value=Name(id='dimensions', ctx=Load()))])")
+FILE_ACCESS_METHODS = ['load_tile_metadata', 'is_cached', 'load_tile', 'remove_tile']
+
+
+def file_access_pinned(fn):
+    """load_tile / load_tile_metadata / is_cached / remove_tile of FileCache: the only file name they use is
+    `location = self.tile_location(tile, dimensions=dimensions)`: the name `location` is bound by exactly that assignment and nothing
+    else, and every call into os / os.path / open / ImageSource gets the bare name `location` as its first argument."""
+    what = 'FileCache.' + fn.name
+    if [a.arg for a in fn.args.args][:2] != ['self', 'tile'] or 'dimensions' not in [a.arg for a in fn.args.args]:
+        raise Unsupported(what + ': unexpected signature')
+    bound = 0
+    for n in ast.walk(fn):
+        if isinstance(n, ast.Name) and n.id in ('location', 'tile', 'dimensions', 'self') and isinstance(n.ctx, (ast.Store, ast.Del)):
+            if n.id != 'location':
+                raise Unsupported('%s: %s is rebound' % (what, n.id))
+        if isinstance(n, (ast.Assign, ast.AugAssign, ast.AnnAssign, ast.NamedExpr, ast.For, ast.With, ast.comprehension)):
+            targets = n.targets if isinstance(n, ast.Assign) else [getattr(n, 'target', None)] if not isinstance(n, ast.With) else \
+                [i.optional_vars for i in n.items]
+            for t in targets:
+                for m in ast.walk(t) if t is not None else []:
+                    if isinstance(m, ast.Name) and m.id == 'location':
+                        if not (isinstance(n, ast.Assign) and len(n.targets) == 1 and isinstance(n.targets[0], ast.Name)
+                                and ast.dump(n.value) == LOCATION_ASSIGN):
+                            raise Unsupported('%s: `location` is bound by something else than self.tile_location(tile, dimensions=dimensions): %s'
+                                              % (what, ast.dump(n)[:300]))
+                        bound += 1
+        if isinstance(n, ast.Call):
+            f = n.func
+            root = f
+            while isinstance(root, ast.Attribute):
+                root = root.value
+            fs_call = (isinstance(root, ast.Name) and root.id == 'os' and isinstance(f, ast.Attribute)) or \
+                      (isinstance(f, ast.Name) and f.id in ('open', 'ImageSource'))
+            if fs_call:
+                if not n.args or not (isinstance(n.args[0], ast.Name) and n.args[0].id == 'location'):
+                    raise Unsupported('%s: file-system call with an argument other than `location`: %s' % (what, ast.dump(n)[:300]))
+            elif isinstance(f, ast.Name) and f.id not in ('ImageSource', 'open', 'int', 'len', 'str', 'isinstance'):
+                raise Unsupported('%s: call of %s' % (what, f.id))
+    return bound
+
+
+POP_PATH_CALL = "Call(func=Attribute(value=Name(id='req', ctx=Load()), attr='pop_path', ctx=Load()), args=[], keywords=[])"
+APP_FILENAME_PINNED = (
+    "[Return(value=Call(func=Attribute(value=Attribute(value=Name(id='os', ctx=Load()), attr='path', ctx=Load()), attr='join', ctx=Load()), "
+    "args=[Attribute(value=Name(id='self', ctx=Load()), attr='base_dir', ctx=Load()), BoolOp(op=Or(), values=[BinOp(left=Name(id='app_name', ctx=Load()), "
+    "op=Add(), right=Attribute(value=Name(id='self', ctx=Load()), attr='suffix', ctx=Load())), Constant(value=@0)])], keywords=[]))]")
+
+
+def multiapp_pinned(mtree):
+    """MultiMapProxy.handle: the instance name is exactly what Request.pop_path returns (no decoding, no joining);
+    DirectoryConfLoader.filename_from_app_name: os.path.join(self.base_dir, app_name + self.suffix or '')."""
+    h = _func(mtree, 'handle', cls='MultiMapProxy')
+    n_bind = 0
+    for n in ast.walk(h):
+        if isinstance(n, ast.Name) and n.id == 'app_name' and isinstance(n.ctx, (ast.Store, ast.Del)):
+            n_bind += 1
+        if isinstance(n, ast.Assign) and any(isinstance(m, ast.Name) and m.id == 'app_name' for t in n.targets for m in ast.walk(t)):
+            if not (len(n.targets) == 1 and isinstance(n.targets[0], ast.Name) and ast.dump(n.value) == POP_PATH_CALL):
+                raise Unsupported('MultiMapProxy.handle: app_name is not exactly req.pop_path(): ' + ast.dump(n)[:300])
+    if n_bind != 1:
+        raise Unsupported('MultiMapProxy.handle: app_name is bound %d times' % n_bind)
+    f = _func(mtree, 'filename_from_app_name', cls='DirectoryConfLoader')
+    if pinned(f, APP_FILENAME_PINNED, 'DirectoryConfLoader.filename_from_app_name') != ['']:
+        raise Unsupported('DirectoryConfLoader.filename_from_app_name: unexpected constants')
+    for name in ('app_available', 'app_conf'):
+        g = _func(mtree, name, cls='DirectoryConfLoader')
+        for n in ast.walk(g):
+            if isinstance(n, ast.Name) and n.id == 'app_name' and isinstance(n.ctx, (ast.Store, ast.Del)):
+                raise Unsupported('DirectoryConfLoader.%s rebinds app_name' % name)
+            if isinstance(n, ast.Assign) and any(isinstance(m, ast.Name) and m.id == 'conf_file' for t in n.targets for m in ast.walk(t)):
+                if ast.dump(n.value) != ("Call(func=Attribute(value=Name(id='self', ctx=Load()), attr='filename_from_app_name', ctx=Load()), "
+                                         "args=[Name(id='app_name', ctx=Load())], keywords=[])"):
+                    raise Unsupported('DirectoryConfLoader.%s: conf_file is not self.filename_from_app_name(app_name)' % name)
+
+
 class _Holes(ast.NodeTransformer):
     """replace every str constant by a numbered hole, remembering the values"""
 
@@ -201,6 +284,9 @@ def generate(repo):
         raise Unsupported('FileCache.level_location: unexpected signature')
     if pinned(flfn, FILE_LEVEL_PINNED, 'FileCache.level_location'):
         raise Unsupported('FileCache.level_location: unexpected constants')
+    multiapp_pinned(ast.parse(open(os.path.join(repo, 'mapproxy/multiapp.py')).read()))
+    for name in FILE_ACCESS_METHODS:
+        file_access_pinned(_func(ftree, name, cls='FileCache'))
     out = ['(* GENERATED by translator/specs/pathconf.py from mapproxy/cache/path.py and mapproxy/cache/base.py.  Do not edit: rewritten on every run. *)',
            'From Coq Require Import ZArith List.', 'Import ListNotations.', 'Local Open Scope Z_scope.', '',
            '(* _path_component: for char, escaped in (...): name = name.replace(char, escaped) *)',
